@@ -23,6 +23,10 @@ def run(ctx: Ctx) -> None:
     ctx.rule('R09.1', 'matching weights are the negative log-odds of the flip marginal of the detected sector', floor=7)
     ctx.rule('R09.2', 'matcher <-> syndrome part <-> output half pairing in the matching decoders', floor=15)
     ctx.trust('PyMatching returns a minimum-weight perfect matching for the weights it is given')
-    facts = [f for f in sector.analyse(ctx.model, only=_MATCHERS) if f.decoder in _MATCHERS]
-    facts_to_obs(ctx, facts, {'weights': 'R09.1', 'get_weights': 'R09.1', 'matrix': 'R09.2', 'syndrome': 'R09.2',
-                              'output': 'R09.2'})
+    with ctx.part():
+        facts = [f for f in sector.analyse(ctx.model, only=_MATCHERS) if f.decoder in _MATCHERS]
+        facts_to_obs(ctx, facts, {'weights': 'R09.1', 'get_weights': 'R09.1', 'rate': 'R09.1', 'matrix': 'R09.2',
+                                  'syndrome': 'R09.2', 'output': 'R09.2'})
+    with ctx.part():
+        from .c08 import weights_vs_distribution
+        weights_vs_distribution(ctx, 'R09.1')
